@@ -48,7 +48,7 @@ class RefInterp:
         self.scopes = [{}]
         self.last = None
         self.out = []            # texts written (z3 String terms)
-        self.out_calls = 0; self.in_calls = 0
+        self.out_calls = 0; self.in_calls = 0; self.events = []
         self.stdin = list(stdin_lines); self.in_pos = 0
         self.out_fail_at, self.in_fail_at = out_fail_at, in_fail_at
         self.max_iter = max_iter
@@ -288,12 +288,12 @@ class RefInterp:
 
     # ---- i/o
     def output(self, text):
-        k = self.out_calls; self.out_calls += 1
+        k = self.out_calls; self.out_calls += 1; self.events.append('out')
         if self.out_fail_at is not None and k >= self.out_fail_at: raise RErr('EnvironmentError', 'IOError')
         self.out.append(z3.Concat(text, zs('\n')))
 
     def input(self):
-        k = self.in_calls; self.in_calls += 1
+        k = self.in_calls; self.in_calls += 1; self.events.append('in')
         if self.in_fail_at is not None and k >= self.in_fail_at: raise RErr('EnvironmentError', 'IOError')
         if self.in_pos >= len(self.stdin): return zs('')
         line, has_nl = self.stdin[self.in_pos]; self.in_pos += 1
